@@ -19,6 +19,7 @@ import (
 	"fmt"
 	"io"
 	"log/slog"
+	"net/http"
 	"os"
 	"os/exec"
 	"path/filepath"
@@ -27,6 +28,7 @@ import (
 	"time"
 
 	"chainguard.dev/apko/pkg/apk/apk"
+	"chainguard.dev/apko/pkg/apk/auth"
 	"chainguard.dev/apko/pkg/apk/expandapk"
 	"chainguard.dev/apko/pkg/build"
 	"verifharness/gal"
@@ -122,6 +124,15 @@ func memberBytes(kind int64, variant int) []byte {
 		return tgz([2]string{"usr/", ""}, [2]string{"usr/bin/", ""}, [2]string{"usr/bin/hello", "#!/bin/sh\necho hi\n"})
 	case 2:
 		return gzOf(nil)
+	case 4:
+		return gzOf(make([]byte, 1024)) // a tar end-of-archive marker and nothing else
+	case 5:
+		// valid gzip, no tar: too short for a header / full blocks that are no header
+		// (zero bytes are avoided: together with a following member they can add up to an end marker)
+		if variant%2 == 0 {
+			return gzOf([]byte("hello world, not a tar"))
+		}
+		return gzOf([]byte(strings.Repeat("junk!", 300)))
 	default:
 		m := tgz([2]string{"etc/", ""}, [2]string{"etc/motd", "hello\n"})
 		m[len(m)-6] ^= 0x55 // a byte of the CRC-32 in the member's trailer
@@ -244,7 +255,7 @@ func runSites(dir string, seed uint64, tier string) error {
 					var o []string
 					if len(f) > 3 && f[3] != "" {
 						for _, e := range strings.Split(f[3], ",") { // base64 per string: names may hold any byte
-							d, _ := base64.StdEncoding.DecodeString(e)
+							d, _ := base64.StdEncoding.DecodeString(strings.TrimPrefix(e, "."))
 							o = append(o, string(d))
 						}
 					}
@@ -449,17 +460,14 @@ func runSites(dir string, seed uint64, tier string) error {
 		if len(prefix) == 4 {
 			return
 		}
-		for k := int64(0); k < 4; k++ {
+		for k := int64(0); k < 6; k++ { // 0 signature, 1 other tar, 2 gzip of nothing, 3 wrong CRC, 4 end marker only, 5 no tar
 			rec(append(append([]int64{}, prefix...), k))
 		}
 	}
 	rec(nil)
-	step := 3
-	if tier == "thorough" {
-		step = 1
-	}
 	for i, q := range seqs {
-		if len(q) > 2 && i%step != 0 {
+		// quick: every sequence of up to 2 members, a third of those of 3, a ninth of those of 4 (1555 sequences in all)
+		if tier != "thorough" && ((len(q) == 3 && i%3 != 0) || (len(q) == 4 && i%9 != 0)) {
 			continue
 		}
 		for _, garbage := range []int64{0, 1} {
@@ -493,7 +501,126 @@ func runSites(dir string, seed uint64, tier string) error {
 				return []string{fmt.Sprint(len(parts))}, nil, false, nil
 			})
 			addSite(w, "split", "", nil, nums, "[]", "[]", o, fmt.Sprintf("members-%d", len(q)))
+			o = observe("resolveApk", dl, func() ([]string, []byte, bool, error) {
+				_, err := apk.ResolveApk(ctx, bytes.NewReader(stream))
+				return nil, nil, false, err
+			})
+			addSite(w, "resolveApk", "", nil, nums, "[]", "[]", o, fmt.Sprintf("members-%d", len(q)))
 		}
+	}
+
+	// ---- session 4: the sites that were exploration-only, through whatever public entry reaches them ------------
+	// controlValue (apk/util.go) through the whole install pipeline: the values of `triggers` end up in lib/apk/db/triggers
+	{
+		texts := []string{"", "triggers = /usr/bin/*", "triggers=/a\ntriggers = /b", "triggers = ", "triggers =", "triggers", "triggers = a = b", "triggers == a", " triggers = x ", "\ttriggers\t=\ty\t",
+			"triggers = x\r", "x = triggers", "Triggers = no", "triggers2 = no", "triggers = a\n\n\ntriggers = b\n", "# triggers = c", "triggers : d", "triggers = /a /b  /c", "datahash = 00\ntriggers = t",
+			"triggers = \"q\"", "triggers = 'q'", "triggers = a\\", "triggers =\ttab", "depend = a=1", "depend = a>=1\ntriggers = z", "triggers = \u00e9", "triggers = x # c", "triggers = x ; c", "=", "= v", "triggers = =",
+			"a = b\ntriggers", "triggers = " + strings.Repeat("/p ", 300)}
+		for i := 0; i < 40*scale; i++ {
+			var ls []string
+			for k, m := 0, 1+r.Intn(4); k < m; k++ {
+				key := gal.Pick(r, []string{"triggers", "triggers", " triggers", "triggers ", "triggersx", "datahash", "x", ""})
+				sep := gal.Pick(r, []string{"=", " = ", "= ", " =", "==", " : ", ""})
+				val := gal.Pick(r, []string{"/a", "", " ", "a=b", "/usr/* /lib/*", "v\t", "\"", "é"})
+				ls = append(ls, key+sep+val)
+			}
+			texts = append(texts, strings.Join(ls, "\n"))
+		}
+		var full []string
+		for _, t := range texts {
+			full = append(full, "pkgname = hello\npkgver = 1.0-r0\n"+t+"\n")
+		}
+		obs, err := runSiteChild("pkginfo", full)
+		if err != nil {
+			return err
+		}
+		rejected := 0
+		for i, t := range full {
+			if obs[i].class == ckErr {
+				rejected++ // ini.ShadowLoad (packageInfo) or the installer refused the text before / after controlValue: nothing to compare
+				continue
+			}
+			bucket := "corpus"
+			if i >= len(texts)-40*scale {
+				bucket = "generated"
+			}
+			addSite(w, "controlValues", t, nil, nil, "[]", "[]", obs[i], bucket)
+		}
+		fmt.Printf("STAT {\"control_value_texts\": %d, \"control_value_texts_refused_by_the_pipeline\": %d}\n", len(full), rejected)
+	}
+	// "!name" constraints through the resolver
+	{
+		ix := apk.NewNamedRepositoryWithIndex("", (&apk.Repository{URI: "/r/x86_64"}).WithIndex(&apk.APKIndex{Packages: []*apk.Package{{Name: "a", Version: "1", Arch: "x86_64"}, {Name: "b", Version: "1", Arch: "x86_64", Dependencies: []string{"!a", "!"}}}}))
+		for _, c := range []string{"!", "!a", "!!", "! ", "!\x00", "a", "", "!b", "!a=1", "b", "!\xff"} {
+			cc := c
+			o := observe("conflictName", dl, func() ([]string, []byte, bool, error) {
+				_, _, _ = apk.NewPkgResolver(ctx, []apk.NamedIndex{ix}).GetPackagesWithDependencies(ctx, []string{cc}, nil)
+				_, _, _ = apk.NewPkgResolver(ctx, []apk.NamedIndex{ix}).GetPackagesWithDependencies(ctx, []string{"a", cc}, nil)
+				return nil, nil, false, nil
+			})
+			addSite(w, "conflictName", c, nil, nil, "[]", "[]", o, "corpus")
+		}
+	}
+	// groupByOriginAndSize's cut: n packages of n origins, every budget buildLayers lets through
+	for n := 0; n <= 5; n++ {
+		var pkgs []*apk.Package
+		for k := 0; k < n; k++ {
+			pkgs = append(pkgs, &apk.Package{Name: fmt.Sprintf("p%d", k), Version: "1", Origin: fmt.Sprintf("o%d", k), InstalledSize: uint64(10 + k)})
+		}
+		for _, b := range []int64{0, 1, 2, 3, 4, 5, 6, 7, 1 << 40, 1<<63 - 1} {
+			bb := b
+			o := observe("layerCutoff", dl, func() ([]string, []byte, bool, error) {
+				cnt, err := build.VerifC15GroupCount(pkgs, int(bb))
+				return []string{fmt.Sprint(cnt)}, nil, false, err
+			})
+			addSite(w, "layerCutoff", "", nil, []int64{int64(n), b}, "[]", "[]", o, "corpus")
+		}
+	}
+	// RepositoryWithIndex.RepoAbbr (exported, no caller in apko)
+	for _, u := range []string{"", "repo", "a/b", "/", "//", "https://dl/alpine/edge/main/x86_64", "a/b/", "/x", "x/"} {
+		uu := u
+		o := observe("repoAbbr", dl, func() ([]string, []byte, bool, error) {
+			return []string{(&apk.Repository{URI: uu}).WithIndex(&apk.APKIndex{}).RepoAbbr()}, nil, false, nil
+		})
+		addSite(w, "repoAbbr", u, nil, nil, "[]", "[]", o, "corpus")
+	}
+	// EnvAuth.AddAuth: the HTTP_AUTH environment variable
+	for _, e := range []string{"", "basic", "basic:h:u:p", "basic:h:u", "basic:h:u:p:x", ":::", "basic:::", "x:h:u:p", "basic:r.example:u:p", "::::", "basic:h:u:p\n"} {
+		ee := e
+		o := observe("envAuth", dl, func() ([]string, []byte, bool, error) {
+			old, had := os.LookupEnv("HTTP_AUTH")
+			_ = os.Setenv("HTTP_AUTH", ee)
+			defer func() {
+				if had {
+					_ = os.Setenv("HTTP_AUTH", old)
+				} else {
+					_ = os.Unsetenv("HTTP_AUTH")
+				}
+			}()
+			req, _ := http.NewRequest(http.MethodGet, "https://r.example/x", nil)
+			return nil, nil, false, auth.EnvAuth{}.AddAuth(ctx, req)
+		})
+		addSite(w, "envAuth", e, nil, nil, "[]", "[]", o, "corpus")
+	}
+	// etagFromResponse: the Etag header of an untrusted server
+	for _, h := range []struct {
+		present bool
+		vals    []string
+	}{{false, nil}, {true, nil}, {true, []string{}}, {true, []string{""}}, {true, []string{"", "x"}}, {true, []string{"\"abc\""}}, {true, []string{"x", ""}}, {true, []string{"\""}}, {true, []string{"W/\"x\""}}, {true, []string{"\"\""}}, {true, []string{"\"\"\"", "y"}}, {true, []string{" "}}} {
+		hh := h
+		o := observe("etag", dl, func() ([]string, []byte, bool, error) {
+			resp := &http.Response{Header: http.Header{}}
+			if hh.present {
+				resp.Header["Etag"] = hh.vals
+			}
+			_, ok := apk.VerifEtagFromResponse(resp)
+			return []string{fmt.Sprint(ok)}, nil, false, nil
+		})
+		p := int64(0)
+		if h.present {
+			p = 1
+		}
+		addSite(w, "etag", "", h.vals, []int64{p}, "[]", "[]", o, "corpus")
 	}
 
 	// ---- Go only: the scanner token limit at its real size ---------------------------------------
@@ -593,7 +720,113 @@ func childRepoLines(inFile, repoDir string, from int) {
 		}
 		enc := make([]string, len(out))
 		for k, o := range out {
-			enc[k] = base64.StdEncoding.EncodeToString([]byte(o))
+			enc[k] = "." + base64.StdEncoding.EncodeToString([]byte(o)) // "." keeps one empty value apart from no value
+		}
+		fmt.Printf("END %d %d %s\n", i, cl, strings.Join(enc, ","))
+	}
+	fmt.Println("DONE")
+}
+
+// runSiteChild: payloads that must run in a process of their own (code that panics inside an errgroup
+// goroutine, as it would inside apko, takes the process down): one child, restarted after each death;
+// the case in flight at a death is the outcome "panic".
+func runSiteChild(kind string, payloads []string) ([]siteObs, error) {
+	inFile := filepath.Join(tmpRoot, "sitechild-"+kind+".txt")
+	var sb strings.Builder
+	for _, l := range payloads {
+		sb.WriteString(base64.StdEncoding.EncodeToString([]byte(l)) + "\n")
+	}
+	if err := os.WriteFile(inFile, []byte(sb.String()), 0o644); err != nil {
+		return nil, err
+	}
+	obs := make([]siteObs, len(payloads))
+	for from, restarts := 0, 0; from < len(payloads); restarts++ {
+		if restarts > len(payloads)+4 {
+			return nil, fmt.Errorf("sites: the %s child was restarted too often", kind)
+		}
+		cmd := exec.Command(os.Args[0], "-child", kind, "-in", inFile, "-from", strconv.Itoa(from))
+		cmd.Env = append(os.Environ(), "GOTRACEBACK=none")
+		out, _ := cmd.Output()
+		current, done := -1, false
+		for _, l := range strings.Split(string(out), "\n") {
+			f := strings.SplitN(l, " ", 4)
+			switch f[0] {
+			case "BEGIN":
+				current, _ = strconv.Atoi(f[1])
+			case "END":
+				i, _ := strconv.Atoi(f[1])
+				cl, _ := strconv.Atoi(f[2])
+				var o []string
+				if len(f) > 3 && f[3] != "" {
+					for _, e := range strings.Split(f[3], ",") {
+						d, _ := base64.StdEncoding.DecodeString(strings.TrimPrefix(e, "."))
+						o = append(o, string(d))
+					}
+				}
+				obs[i] = siteObs{class: cl, out: o}
+				current, from = -1, i+1
+			case "DONE":
+				done = true
+			}
+		}
+		if current >= 0 {
+			obs[current] = siteObs{class: ckPanic}
+			from = current + 1
+		} else if !done && from < len(payloads) {
+			return nil, fmt.Errorf("sites: the %s child stopped without a case in flight", kind)
+		}
+	}
+	return obs, nil
+}
+
+// childPkginfo: each payload is a .PKGINFO text; a package with it goes through InstallPackages on a
+// memfs; what comes back: the values recorded in lib/apk/db/triggers
+func childPkginfo(inFile string, from int) {
+	slog.SetDefault(slog.New(slog.NewTextHandler(io.Discard, nil)))
+	b, err := os.ReadFile(inFile)
+	if err != nil {
+		os.Exit(3)
+	}
+	tmpRoot, err = os.MkdirTemp("", "c15p-")
+	if err != nil {
+		os.Exit(3)
+	}
+	defer os.RemoveAll(tmpRoot)
+	ctx := context.Background()
+	lines := strings.Split(strings.TrimSuffix(string(b), "\n"), "\n")
+	data := tgz([2]string{"usr/", ""}, [2]string{"usr/f", "x"})
+	for i := from; i < len(lines); i++ {
+		raw, _ := base64.StdEncoding.DecodeString(lines[i])
+		fmt.Printf("BEGIN %d\n", i)
+		var out []string
+		silent = true
+		cl := call("controlValues", func([]byte) error {
+			fsys, err := installPipelineFS(ctx, append(tgz([2]string{".PKGINFO", string(raw)}), data...), false)
+			if err != nil || fsys == nil {
+				if err == nil {
+					err = fmt.Errorf("the target was not reached")
+				}
+				return err
+			}
+			t, err := fsys.ReadFile("lib/apk/db/triggers")
+			if err != nil {
+				return err
+			}
+			for _, l := range strings.Split(strings.TrimSuffix(string(t), "\n"), "\n") {
+				if l == "" {
+					continue
+				}
+				_, v, _ := strings.Cut(l, " ")
+				out = append(out, v)
+			}
+			return nil
+		}, raw, 10*time.Second)
+		if cl != ckOk {
+			out = nil
+		}
+		enc := make([]string, len(out))
+		for k, o := range out {
+			enc[k] = "." + base64.StdEncoding.EncodeToString([]byte(o)) // "." keeps one empty value apart from no value
 		}
 		fmt.Printf("END %d %d %s\n", i, cl, strings.Join(enc, ","))
 	}
